@@ -40,6 +40,31 @@ def reads_ok(store):
     return None
 
 
+def add_skewed_history(st, r, trace, max_tasks=2):
+    """the log carries, for its oldest ready tasks, an earlier claim-and-release stamped by a clock that runs ahead (a collaborator's machine
+    whose log was merged in; this machine's clock stepped back since): the *order of the lines* is what decides a task's state, whatever the stamps say"""
+    import datetime
+    g = st.graph()
+    if "graph" not in g:
+        return
+    from . import oracles
+    ready = oracles.ready_order(g["graph"], "")[:max_tasks]
+    if not ready or not st.log_bytes().endswith(b"\n"):
+        return
+    now = datetime.datetime.now(datetime.timezone.utc)
+    lines = []
+    for k, tid in enumerate(ready):
+        f1 = (now + datetime.timedelta(minutes=50 + 7 * k)).strftime("%Y-%m-%dT%H:%M:%S.%f000Z")
+        f2 = (now + datetime.timedelta(minutes=55 + 7 * k)).strftime("%Y-%m-%dT%H:%M:%S.%f000Z")
+        lines += [{"type": "claim", "ts": f1, "data": {"id": tid, "agent_id": "earlier-agent", "ts": f1}},
+                  {"type": "state", "ts": f1, "data": {"id": tid, "state": "doing", "ts": f1}},
+                  {"type": "state", "ts": f2, "data": {"id": tid, "state": "todo", "ts": f2}}]
+    blob = "".join(json.dumps(l, separators=(",", ":")) + "\n" for l in lines)
+    with open(st.log_path(), "ab") as f:
+        f.write(blob.encode())
+    trace.append({"edit": "lines appended to the log: an earlier claim and release of %s stamped 50–60 minutes ahead of this machine's clock" % ready, "bytes": blob})
+
+
 def build_state(ctx, r, n_cmds, weights=None, binary=None, big=0, legacy=False, torn=False):
     """a store brought to a CLI-reachable state by a short seeded history (returns store, view, trace).
     big=N first adds one plan of N tasks with ~600-byte bodies, so the log spans several 64 KiB blocks"""
